@@ -12,6 +12,18 @@ impl<K: Eq + Hash, V, S: BuildHasher> HashMap<K, V, S> {
         HashMap(std::collections::HashMap::with_capacity_and_hasher(sched::capped_capacity(cap), hasher))
     }
 }
+// The two ways of writing an element are seen by the simulator: the search stores a node when it has completed it,
+// which is the only sign of node work that does not depend on the search looking at its stop flag.
+impl<K: Eq + Hash, V, S: BuildHasher> HashMap<K, V, S> {
+    pub fn insert(&mut self, k: K, v: V) -> Option<V> {
+        sched::table_store();
+        self.0.insert(k, v)
+    }
+    pub fn entry(&mut self, k: K) -> std::collections::hash_map::Entry<'_, K, V> {
+        sched::table_store();
+        self.0.entry(k)
+    }
+}
 impl<K, V, S: Default> Default for HashMap<K, V, S> {
     fn default() -> Self {
         HashMap(std::collections::HashMap::default())
